@@ -133,7 +133,7 @@ def rr_prune(ctx):
         r = roles(facts, adt) if adt != MVREG else {'entries': None, 'deferred': None, 'clock': None}
         it = interp(facts, body)
         for bb, c in sorted(it.calls.items()):
-            if call_name(c.term) not in ('filter_map', 'retain', 'filter'):
+            if call_name(c.term) not in ('filter_map', 'retain', 'filter', 'retain_mut', 'extract_if', 'drain_filter'):
                 continue
             for clo, m in closure_bindings(c.term):
                 cb = facts.by_uid.get(clo[1])
